@@ -36,7 +36,7 @@
    message counts as a notification when it is a request); null params are read as absent by the
    member parser: the message denoted is canon (norm m). *)
 From Coq Require Import List NArith ZArith Bool.
-From JV Require Import Bytes Json JsonProofs JsonPrint JsonTree Msg Wire WireProofs WireSpecs WireMore.
+From JV Require Import Bytes Json JsonProofs JsonPrint JsonTree JsonEq Msg Wire WireProofs WireSpecs WireMore.
 Import ListNotations.
 Local Open Scope N_scope.
 
@@ -285,3 +285,22 @@ Theorem c13_member_correspondence_single : forall (s : bytes) (x : json), parse 
   exists raw, split_msgs s = Some (false, [raw]) /\ parse raw = Some x.
 Proof. exact member_correspondence_single. Qed.
 Print Assumptions c13_member_correspondence_single.
+
+(* -- JSON-equality: compaction (json.Compact, json.Marshal of a RawMessage) keeps the VALUE ------- *)
+
+Theorem c13_compact_json_equal : forall p q : bytes, compact p = Some q -> parse q = parse p.
+Proof. exact compact_parse. Qed.
+Print Assumptions c13_compact_json_equal.
+
+Theorem c13_html_escape_keeps_string : forall b : bytes, body_okb b = true -> unquote (html_esc b) = unquote b.
+Proof. exact unquote_html_esc. Qed.
+Print Assumptions c13_html_escape_keeps_string.
+
+Theorem c13_error_data_json_equal : forall (m : jmsg) (b : bytes) (e : werr), msg_rt' m -> enc_msg m = Some b ->
+  j_error m = Some e -> j_method m = [] -> j_result m = [] ->
+  exists e', j_error (parse_member b) = Some e' /\ we_code e' = we_code e /\
+             (valid_utf8 (we_msg e) = true -> we_msg e' = we_msg e) /\
+             (we_data e = [] -> we_data e' = []) /\
+             (we_data e <> [] -> we_data e' <> [] /\ parse (we_data e') = parse (we_data e) /\ parse (we_data e) <> None).
+Proof. exact error_data_json_equal. Qed.
+Print Assumptions c13_error_data_json_equal.
